@@ -102,7 +102,8 @@ def run(ctx):
       "scheduler stepped by the harness (cycle(), SelectHub._select, idle()); select() replaced by a polling "
       "shim that advances the virtual clock; threaded hub mode is stepped, not run on a real thread (C07 covers threads)",
       "sub-unit task priorities (randomised by design) and CallBlocking are not modelled; Recv/Send are driven with "
-      "scripted sockets (full / 1-byte / would-block writes)"]
+      "scripted sockets (full / 1-byte / would-block writes)",
+      "Timer objects (Timers.tla): delays 0..3 virtual seconds, <=1 timer exhaustively (2 in thorough, 3 in simulation)"]
   pi = dict(threaded=False, nlocks=1)
   pt = dict(threaded=True, nlocks=1)
   ENVT = ENV_Q + ["QIdle"]
@@ -110,7 +111,7 @@ def run(ctx):
   FULL = ["Cycle", "HubSelect", "WakeST", "WakeDirect", "FdSet", "Advance"]
   # (cfg, coverage actions or None for liveness runs)
   mcs = [("MCQ_Q1i.cfg", ENV_Q), ("MCQ_Q1t.cfg", ENVT), ("MC_Ti.cfg", TIM),
-         ("MCQ_S2i.cfg", ["Setup", "Cycle", "HubSelect"]), ("MCQ_IO1i.cfg", ["Setup", "Cycle", "HubSelect", "QFdSet"]),
+         ("MCQ_S2i.cfg", ["Setup", "Cycle", "HubSelect"]), ("MCQ_N2i.cfg", ["Setup", "Cycle", "HubSelect"]), ("MCQ_IO1i.cfg", ["Setup", "Cycle", "HubSelect", "QFdSet"]),
          ("MCQ_RW2i.cfg", ["Setup", "Cycle", "HubSelect", "QFdSet"]),
          ("LIVE_i.cfg", None), ("LIVE_t.cfg", None)]
   if not quick:
@@ -118,13 +119,15 @@ def run(ctx):
   # (cfg, adapter params, cap in quick)
   exs = [("EX_Q1i.cfg", pi, 2500), ("EX_Q1t.cfg", pt, 2000), ("EX_S2i.cfg", pi, 3000),
          ("EX_IO1i.cfg", pi, 2000), ("EX_IO2si.cfg", pi, 1500),
+         # sub-functions that call sub-functions (nested Again): results and exceptions reach exactly the caller
+         ("EX_N2i.cfg", pi, 1500),
          ("EX_Ti.cfg", pi, 1500), ("EX_Tt.cfg", pt, 1000),
          # the same hub with use_epoll=True: pox.lib.epoll_select.EpollSelect must behave like select()
          ("EX_IO1i.cfg", dict(pi, epoll=True), 1500),
          # read and write interest in the same socket (two tasks / one after the other), both select implementations
          ("EX_RW2i.cfg", pi, 1500), ("EX_RW2i.cfg", dict(pi, epoll=True), 1500), ("EX_RW2t.cfg", dict(pt, epoll=True), 1000)]
   if not quick:
-    exs += [("EX_S2t.cfg", pt, 2000), ("EX_IO2st.cfg", pt, 1500), ("EX_Q1t.cfg", dict(pt, epoll=True), 1500)]
+    exs += [("EX_N2t.cfg", pt, 2000), ("EX_S2t.cfg", pt, 2000), ("EX_IO2st.cfg", pt, 1500), ("EX_Q1t.cfg", dict(pt, epoll=True), 1500)]
   # (two tasks x all 2-op programs is ~3k set-ups and millions of transitions: covered by simulation instead)
   n = 100 if quick else 2500
   sims = [("SIM_A2i.cfg", n, 14, pi, 0), ("SIM_A2t.cfg", n, 14, pt, 0), ("SIM_B3i.cfg", n, 14, pi, 0),
@@ -132,9 +135,18 @@ def run(ctx):
   if not quick:
     sims += [("SIM_A2i_deep.cfg", 1500, 40, pi, 5), ("SIM_B3t_deep.cfg", 1500, 40, pt, 6),
              ("SIM_A2i.cfg", 4000, 14, dict(pi, epoll=True), 7), ("SIM_A2t.cfg", 4000, 14, pt, 8)]
+  # the Timer class in full (specs/keepalive/Timers.tla, shared with the keepalive extension X04): one-shot and
+  # recurring, relative and absolute, created stopped and started later (started=False), cancel, a callback that
+  # returns False or raises - its own model run, edge cover and simulation, replayed on the real Timer
+  from props import X04
+  tjobs = [dict(X04.mc_job("MC_T1.cfg", "MCTimers", short=True), tag=ctx.pid),
+           dict(X04.ex_job("EX_T1.cfg", "MCTimers"), tag=ctx.pid),
+           dict(X04.sim_job(ctx, "SIM_T.cfg", "MCTimers", 60 if quick else 1200, 40, 0), tag=ctx.pid)]
+  if not quick:
+    tjobs.append(dict(X04.ex_job("EX_T2e.cfg", "MCTimers"), tag=ctx.pid))
   # all TLC runs are independent: run them concurrently, then replay
   jobs = [mc_job(ctx, c, cov=a is not None) for c, a in mcs] + [ex_job(ctx, c) for c, _, _ in exs] + \
-         [sim_job(ctx, c, num, d, so) for c, num, d, _, so in sims]
+         [sim_job(ctx, c, num, d, so) for c, num, d, _, so in sims] + tjobs
   import time as _t
   _t0 = _t.time()
   res = tlc.run_many(jobs, parallel=8)
@@ -155,4 +167,21 @@ def run(ctx):
   for c, num, d, prm, so in sims:
     simulate(ctx, c, num, d, prm, so, res=res[k])
     k += 1
+  # Timer stage
+  r = res[k]
+  if r.violated:
+    raise tlc.TLCError("Timers.tla violates %s:\n%s" % (r.violated, r.error_trace[:3000]))
+  tlc.require_coverage(r, X04.ACT_T, "MC_T1.cfg")
+  ctx.add_model("Timers MC_T1.cfg", r)
+  nall, behs = X04.take(ctx, res[k + 1], "T", 2500 if quick else None)
+  behs = X04.replay_set(ctx, "Timers EX_T1.cfg", X04.AD_T, nall, behs, dict(direct="mix"))
+  oks = [behs[i] for i in core.replay.last_ok]
+  oks = [b for b in oks if X04.corrupt_t(copy.deepcopy(b))]
+  if not (oks and X04.negative_control(ctx, X04.AD_T, max(oks, key=len), dict(direct="mix"), X04.corrupt_t)):
+    raise core.Machinery("negative control of the Timer replay could not be run")
+  nall, behs = X04.take(ctx, res[k + 2], "H", None)
+  X04.replay_set(ctx, "Timers SIM_T.cfg", X04.AD_T, nall, behs, dict(direct="mix"), chunk=20)
+  if not quick:
+    nall, behs = X04.take(ctx, res[k + 3], "T", 20000)
+    X04.replay_set(ctx, "Timers EX_T2e.cfg", X04.AD_T, nall, behs, dict(direct="mix"))
   ctx.exhaustive = False
